@@ -145,7 +145,7 @@ check("C14", "watchers",
       "ExactlyOneBatch / DataChained / QueueFollows; TLC-generated delivery/swap schedules replayed on the real watchers; concurrent executions "
       "under the Go race detector; every recorded execution validated by TLC as a behaviour of the specification (TraceWatchers.tla)",
       "Exhaustive model checking of the hand-off within small bounds, bound to the code by exact trace validation (every recorded batch must equal "
-      "the model's batch: object list, resource links, ingress add/upd/del lists, ConfigMap data cur/new) of all 22.7k two-event schedules, "
+      "the model's batch: object list, resource links, ingress add/upd/del lists, ConfigMap data cur/new) of all 35k two-event schedules, "
       "thousands of deeper simulated ones, and concurrent runs (lost / duplicated / reordered events, data races).",
       "Trusted: TLC; hook H2 (applies the predicates then calls the handler, as controller-runtime's source does); the Go race detector. "
       "Concurrency coverage is statistical (scheduler-dependent), the sequential part is exhaustive within its bounds.", "DESIGN.md 6 C14")
